@@ -1542,7 +1542,7 @@ class FullyBufferedCursorFetchStrategy(CursorFetchStrategy):
 
         rb = self._rowbuffer
         rows = [rb.popleft() for _ in range(min(size, len(rb)))]
-        if not rows:
+        if not rows and not rb:
             result._soft_close()
         return rows
 
